@@ -44,6 +44,15 @@ impl<BS: Blockstore, K, V> Map2<BS, K, V> {
             r.is_ok() && r->Ok_0.is_some() ==> *(r->Ok_0->Some_0) == self.view()[*key],
     { unimplemented!() }
 
+    /// R16 target: the entries `for_each` visits — every key of the map exactly once (in HAMT order), Err on a traversal error
+    #[verifier::external_body]
+    pub fn vx_entries(&self) -> (r: Result<Vec<(K, &V)>, ActorError>)
+        ensures
+            r.is_ok() ==> (forall|i: int| 0 <= i < r->Ok_0@.len() ==> self.view().dom().contains(#[trigger] r->Ok_0@[i].0) && *r->Ok_0@[i].1 == self.view()[r->Ok_0@[i].0]),
+            r.is_ok() ==> (forall|i: int, j: int| 0 <= i < j < r->Ok_0@.len() ==> r->Ok_0@[i].0 != r->Ok_0@[j].0),
+            r.is_ok() ==> (forall|k: K| self.view().dom().contains(k) ==> exists|i: int| 0 <= i < r->Ok_0@.len() && #[trigger] r->Ok_0@[i].0 == k),
+    { unimplemented!() }
+
     #[verifier::external_body]
     pub fn contains_key(&self, key: &K) -> (r: Result<bool, ActorError>)
         ensures r.is_ok() ==> r->Ok_0 == self.view().dom().contains(*key),
